@@ -205,9 +205,9 @@ def sortBy {α : Type} (lt : α → α → Bool) (l : List α) : List α :=
 
 /-- Go: loop body of `SimplifyRangeColumn`: state is (res, cur). -/
 def simplifyStep (st : List ColRange × ColRange) (r : ColRange) : List ColRange × ColRange :=
-  let (res, cur) := st
-  let (merged, ok) := cur.tryUnion r
-  if ok then (res, merged)
+  let res := st.1
+  let cur := st.2
+  if (cur.tryUnion r).2 then (res, (cur.tryUnion r).1)
   else if !cur.isEmpty then (res ++ [cur], r)
   else (res, cur)
 
@@ -216,8 +216,8 @@ def simplify (rces : List ColRange) : List ColRange :=
   if rces.isEmpty then []
   else
     let sorted := sortBy ColRange.less rces
-    let (res, cur) := sorted.foldl simplifyStep ([], ColRange.empty)
-    if !cur.isEmpty then res ++ [cur] else res
+    let st := sorted.foldl simplifyStep ([], ColRange.empty)
+    if !st.2.isEmpty then st.1 ++ [st.2] else st.1
 
 /-! ## n-column ranges -/
 
@@ -259,8 +259,7 @@ def compare (a b : Range) : Option Int :=
 
 def intersectCols : Range → Range → Option Range
   | a :: as, b :: bs =>
-    let (x, ok) := a.tryIntersect b
-    if !ok then none else (intersectCols as bs).map (x :: ·)
+    if !(a.tryIntersect b).2 then none else (intersectCols as bs).map ((a.tryIntersect b).1 :: ·)
   | _, _ => some []
 
 /-- Go: `MySQLRange.Intersect` (`[]` = nil when the lengths differ). -/
@@ -278,10 +277,11 @@ def isSubsetOf (a b : Range) : Bool :=
 def overlaps (a b : Range) : Bool :=
   if a.length ≠ b.length then false else all2 (fun x y => (x.overlaps y).2) a b
 
-/-- Indices of the columns that are not `Equals`. -/
-def diffIdx : Range → Range → Nat → List Nat
-  | a :: as, b :: bs, i => if a.equals b then diffIdx as bs (i + 1) else i :: diffIdx as bs (i + 1)
-  | _, _, _ => []
+/-- Indices of the columns that are not `Equals` (ascending). -/
+def diffIdx : Range → Range → List Nat
+  | a :: as, b :: bs =>
+    if a.equals b then (diffIdx as bs).map (· + 1) else 0 :: (diffIdx as bs).map (· + 1)
+  | _, _ => []
 
 inductive MergeRes where
   | no
@@ -294,11 +294,11 @@ def tryMerge (a b : Range) : MergeRes :=
   if a.length ≠ b.length then .no
   else if b.isSubsetOf a then .yes a
   else if a.isSubsetOf b then .yes b
-  else match diffIdx a b 0 with
+  else match diffIdx a b with
     | [] => .err
     | [i] =>
-      let (m, ok) := (a.getD i default).tryUnion (b.getD i default)
-      if ok then .yes (a.set i m) else .no
+      let u := (a[i]?.getD default).tryUnion (b[i]?.getD default)
+      if u.2 then .yes (a.set i u.1) else .no
     | _ => .no
 
 end Range
@@ -320,11 +320,11 @@ def removeOverlap : Nat → Range → Range → RO
     | .yes m => .res [m] true
     | .no =>
       if !a.overlaps b then .res [a, b] false
-      else match Range.diffIdx a b 0 with
+      else match Range.diffIdx a b with
         | [] => .res [] true
         | i :: _ =>
-          let ai := a.getD i default
-          let bi := b.getD i default
+          let ai := a[i]?.getD default
+          let bi := b[i]?.getD default
           let ov := (ai.overlaps bi).1
           match ai.subtract ov, bi.subtract ov with
           | some s1, some s2 =>
